@@ -10,6 +10,7 @@ import C02 as _c02
 ID = 'C07'
 MODEL_ID = 'ARGS'
 HARNESS = A.HARNESS
+INTERNAL_COMPARABLE = False   # behind '##' the harness prints exception class / texts, the driver a note: never equal
 RULE = ('split cases: all strings up to length 6 (quick) / 7 (thorough) over {a, blank, \', ", backslash} + escaped '
         'joins of random word lists over printable characters (oracle: the words come back). source cases: a valid '
         'abstract line cut at use boundaries into argument-file lines (with comment and empty lines interspersed, with '
